@@ -875,6 +875,10 @@ def handlePath (cmd : String) (args : List String) : String :=
           | some q => "ok " ++ encStr (joinStr q)
           | none => "raise"
       | _, _ => "bad-op"
+  | "path.s3key", [b, p] =>
+      match decStr b, decStr p with
+      | some pref, some path => encStr (s3Key pref path)
+      | _, _ => "bad-op"
   | "path.arrow", [b, p] =>
       match decStr b, decStr p with
       | some base, some path =>
